@@ -6,6 +6,7 @@
 From Coq Require Import QArith List ZArith.
 Import ListNotations.
 Require Import Plinio.Base.Qx Plinio.Model.SuperNet Plinio.Proofs.SuperNet.
+Require Import Plinio.Gen.SnCostGen Plinio.Proofs.SnCostGen Plinio.Proofs.SnCostFwdGen.
 
 (* the cost is the sum over the combiners of the coefficient-weighted branch costs ... *)
 Theorem C06_sn_cost_is_weighted_mix : forall cost shared th nt,
@@ -113,6 +114,98 @@ Theorem C06_g_cost_hard_eq_export_cost_per_call : forall cost inb full win g e,
   g_cost cost false full (g_hard_sel g win) g == g_plain_cost cost false full inb e.
 Proof. exact g_cost_hard_eq_export_cost_per_call. Qed.
 
+(* ---- the same sentences about the model GENERATED from the source of the tree under test (Gen/SnCostGen.v, rewritten by
+   translator/sncost2coq.py on every run: SuperNetCombiner.get_cost / best_layer_index, SuperNet._get_single_cost /
+   _single_cost_fn_map / __init__ / cost_specification.setter, DNAS.get_cost / cost / _create_cost_fn_map / __init__;
+   equalities with the hand model: Proofs/SnCostGen.v).  `live nt cs0 full0 ops` is the object the generated constructor builds
+   from what convert() returns for the network `nt`, cost specification `cs0` (one CostSpec or a dictionary), full_cost
+   `full0`, after the later assignments `ops` to full_cost / cost_specification; `theta` is theta_alpha of every combiner at
+   the time of the call; `costv` the value of any cost function on any layer / call site; `resolve` which specification a
+   name designates; `cost_of costv c` the per-layer costs under specification c. *)
+Theorem C06_generated_get_cost_eq : forall costv theta nt cs0 full0 ops name c, cs_wf cs0 -> Forall op_wf ops ->
+  resolve (last_spec cs0 ops) name = Some c ->
+  exists v, dnas_get_cost_gen costv theta (live nt cs0 full0 ops) name = Some v /\
+            v == sn_cost (cost_of costv c) (sp_shared c) (last_full full0 ops) theta nt.
+Proof. exact gen_get_cost_eq. Qed.
+
+Theorem C06_generated_get_cost_raises : forall costv theta nt cs0 full0 ops name, cs_wf cs0 -> Forall op_wf ops ->
+  resolve (last_spec cs0 ops) name = None -> dnas_get_cost_gen costv theta (live nt cs0 full0 ops) name = None.
+Proof. exact gen_get_cost_raises. Qed.
+
+Theorem C06_generated_cost_property : forall costv theta self, dnas_cost_gen costv theta self = dnas_get_cost_gen costv theta self None.
+Proof. exact gen_cost_property. Qed.
+
+(* one combiner: the coefficient-weighted sum of the costs of the unique layers of its branches at their first call site *)
+Theorem C06_generated_combiner_cost : forall costv theta b brs c self, sn_ulm self = guniq (gleaves [NChoice b brs]) ->
+  comb_get_cost_gen costv theta (comb_of b brs) c (sn_single_cost_fn_map_gen self c) == block_cost (cost_of costv c) (theta b) brs.
+Proof. exact comb_get_cost_gen_eq. Qed.
+
+Theorem C06_generated_best_layer_index : forall alpha, comb_best_layer_index_gen alpha = best_layer_index alpha.
+Proof. exact comb_best_layer_index_gen_eq. Qed.
+
+(* sentence 1: the coefficient-weighted mix of the branch costs, plus (with full_cost as it is NOW) the fixed layers *)
+Theorem C06_generated_cost_is_weighted_mix : forall costv theta nt cs0 full0 ops name c, cs_wf cs0 -> Forall op_wf ops ->
+  resolve (last_spec cs0 ops) name = Some c ->
+  let cost := cost_of costv c in
+  exists v, dnas_get_cost_gen costv theta (live nt cs0 full0 ops) name = Some v /\
+    v == qsum (map (fun e => match e with ECombiner b brs => dot (theta b) (map (branch_cost cost) brs) | ELayer _ _ => 0 end)
+                   (target_list (sp_shared c) nt))
+         + (if last_full full0 ops then fixed_cost cost (sp_shared c) nt else 0).
+Proof. exact gen_cost_is_weighted_mix. Qed.
+
+(* sentence 2: between the cheapest and the most expensive selection *)
+Theorem C06_generated_cost_convex : forall costv theta nt cs0 full0 ops name c, cs_wf cs0 -> Forall op_wf ops ->
+  resolve (last_spec cs0 ops) name = Some c -> blocks_consistent nt -> coeffs_ok theta nt ->
+  let cost := cost_of costv c in let self := live nt cs0 full0 ops in
+  exists lo v hi,
+    dnas_get_cost_gen costv (hard_sel nt (cheapest cost nt)) self name = Some lo /\
+    dnas_get_cost_gen costv theta self name = Some v /\
+    dnas_get_cost_gen costv (hard_sel nt (dearest cost nt)) self name = Some hi /\ lo <= v /\ v <= hi.
+Proof. exact gen_cost_convex. Qed.
+
+Theorem C06_generated_cost_selection_bounds : forall costv win nt cs0 full0 ops name c, cs_wf cs0 -> Forall op_wf ops ->
+  resolve (last_spec cs0 ops) name = Some c -> blocks_consistent nt -> winners_ok win nt ->
+  let cost := cost_of costv c in let self := live nt cs0 full0 ops in
+  exists lo v hi,
+    dnas_get_cost_gen costv (hard_sel nt (cheapest cost nt)) self name = Some lo /\
+    dnas_get_cost_gen costv (hard_sel nt win) self name = Some v /\
+    dnas_get_cost_gen costv (hard_sel nt (dearest cost nt)) self name = Some hi /\ lo <= v /\ v <= hi.
+Proof. exact gen_cost_selection_bounds. Qed.
+
+(* sentence 3: one-hot coefficients at the branches export() keeps (generated best_layer_index of every combiner) *)
+Theorem C06_generated_cost_hard_eq_export : forall costv alpha inb nt e cs0 full0 ops name c, cs_wf cs0 -> Forall op_wf ops ->
+  resolve (last_spec cs0 ops) name = Some c ->
+  let cost := cost_of costv c in let win := fun b => comb_best_layer_index_gen (alpha b) in
+  site_independent cost -> blocks_consistent nt -> names_ok inb nt ->
+  (if sp_shared c then blocks_disjoint nt else winners_nodup win nt) ->
+  sn_export win nt = Some e ->
+  exists v, dnas_get_cost_gen costv (hard_sel nt win) (live nt cs0 full0 ops) name = Some v /\
+            v == plain_cost cost (sp_shared c) (last_full full0 ops) inb (fixed_layers e).
+Proof. exact gen_cost_hard_eq_export. Qed.
+
+(* ... and with the coefficients PRODUCED by the generated forward pass of every combiner (Gen/SamplerGen.v, C10's translator)
+   under hard selection without noise (hard_softmax set; eval mode or the plain soft-max sampler), for exp any positive
+   strictly increasing g *)
+Theorem C06_generated_forward_hard_cost_eq_export : forall (g : Q -> Q), (forall x, 0 < g x) -> (forall x y, x < y -> g x < g y) ->
+  forall costv st noise inb nt e cs0 full0 ops name c, cs_wf cs0 -> Forall op_wf ops ->
+  resolve (last_spec cs0 ops) name = Some c ->
+  let cost := cost_of costv c in let win := fun b => comb_best_layer_index_gen (alpha_of st b) in
+  hard_det st nt -> site_independent cost -> blocks_consistent nt -> names_ok inb nt ->
+  (if sp_shared c then blocks_disjoint nt else winners_nodup win nt) ->
+  sn_export win nt = Some e ->
+  exists v, dnas_get_cost_gen costv (theta_after g st noise) (live nt cs0 full0 ops) name = Some v /\
+            v == plain_cost cost (sp_shared c) (last_full full0 ops) inb (fixed_layers e).
+Proof. exact gen_forward_hard_cost_eq_export. Qed.
+
+(* the open finding (KNOWN_FINDINGS hard-cost-differs-from-exported:block-invoked-at-different-resolutions) is a behaviour of
+   the generated code too *)
+Theorem C06_generated_cost_site_dependent_refuted : exists costv inb win nt e c v,
+  blocks_consistent nt /\ names_ok inb nt /\ winners_nodup win nt /\ sn_export win nt = Some e /\ sp_shared c = false /\
+  dnas_get_cost_gen costv (hard_sel nt win) (live nt (CSingle c) false []) None = Some v /\
+  ~ v == plain_cost (cost_of costv c) false false inb (fixed_layers e).
+Proof. exact gen_cost_site_dependent_refuted. Qed.
+
+
 Print Assumptions C06_sn_cost_is_weighted_mix.
 Print Assumptions C06_sn_cost_full_adds_fixed.
 Print Assumptions C06_sn_cost_convex.
@@ -128,3 +221,14 @@ Print Assumptions C06_g_cost_selection_bounds.
 Print Assumptions C06_g_cost_affine.
 Print Assumptions C06_g_cost_hard_eq_export_cost_shared.
 Print Assumptions C06_g_cost_hard_eq_export_cost_per_call.
+Print Assumptions C06_generated_get_cost_eq.
+Print Assumptions C06_generated_get_cost_raises.
+Print Assumptions C06_generated_cost_property.
+Print Assumptions C06_generated_combiner_cost.
+Print Assumptions C06_generated_best_layer_index.
+Print Assumptions C06_generated_cost_is_weighted_mix.
+Print Assumptions C06_generated_cost_convex.
+Print Assumptions C06_generated_cost_selection_bounds.
+Print Assumptions C06_generated_cost_hard_eq_export.
+Print Assumptions C06_generated_forward_hard_cost_eq_export.
+Print Assumptions C06_generated_cost_site_dependent_refuted.
